@@ -53,7 +53,7 @@ def kind_atoms(level: str = "full") -> List[Atom]:
     out += cmp_atoms(["txn TypeEnum"], types, ("==", "!="))
     out += cmp_atoms(["txn OnCompletion"], ocs, ("==", "!="))
     out += [["txn ApplicationID"], ["txn ApplicationID", "!"]]
-    out += cmp_atoms(["txn ApplicationID"], ["int 0"], ("==", "!="))
+    out += cmp_atoms(["txn ApplicationID"], ["int 0", "int 5"], ("==", "!="))
     return out
 
 
@@ -93,8 +93,21 @@ def shuffled(atom: Atom) -> List[Atom]:
         atom + ["int 0", "swap", "int 1", "select"],
         ["int 5"] + atom + ["cover 1", "pop"],
         ["int 5"] + atom + ["uncover 1", "pop"],
-    ]
+    ] + cross_block(atom)
     return out
+
+
+def cross_block(atom: Atom) -> List[Atom]:
+    """Conditions one operand of which is produced in another basic block (`@L` is replaced
+    by a fresh label per occurrence): the value crosses a block boundary on the stack."""
+    free = ["txn LastValid", "int 7", ">"]
+    return [
+        free + ["b @L", "@L:"] + atom + ["&&"],
+        free + ["b @L", "@L:"] + atom + ["||"],
+        atom + ["b @L", "@L:"] + free + ["&&"],
+        free + ["b @L", "@L:"] + atom + ["!", "&&"],
+        free + ["b @L", "@L:"] + atom + ["||", "!"],
+    ]
 
 
 def describe(atom: Atom) -> str:
